@@ -99,6 +99,22 @@ CHECKS: dict[str, dict] = {
         "assumptions": ["the parse/print half of C02 is a pure function: monitored on generated traffic only, not claimed as enumerated",
                         "live timestamps are ms-truncated by the library; agreement is judged to 2 ms"],
     },
+    "C11": {
+        "specs": [("limiter", "serial", 400, 16000), ("limiter", "mqtt", 800, 30000)],
+        "budget": (150, 1500),
+        "rule": "one run = 1-8 tasks calling transport.write_frame() in a seeded pattern (bursts of 3-300, steady streams at "
+                "0.02-6 s periods, idle gaps up to 200 s, concurrent callers, frames of 1-48 payload bytes, sync-cycle "
+                "announcements received meanwhile) over 1-20 virtual minutes with the real constants; oracle over every "
+                "window [t_i, t_j] of the serial.write()/publish history: bits <= 384 b/s x L + 23040 + pending frames; "
+                "writes <= L/0.05 + 2; MQTT publishes <= 80/60 s x L + 160, calls return within 1 s (dropped, not queued); "
+                "each accepted frame written once, unaltered, in call order. distinct = distinct arrival-pattern strings; "
+                "non-trivial = >= 3 writes",
+        "real": ["ramses_tx.transport.limit_duty_cycle / avoid_system_syncs / track_system_syncs", "PortTransport._leak_sem + "
+                 "BoundedSemaphore", "_FullTransport.write_frame", "MqttTransport.write_frame token bucket"],
+        "stub": STUB_RF + ["simrf.rf.FakeMqttClient"],
+        "assumptions": ["the limiter's own bit accounting (330 + 10 x payload hex chars) is taken as the definition of a frame's bits",
+                        "the 'one frame per write already pending' allowance is the bits of the other accepted-but-unwritten frames at the time of a write"],
+    },
 }
 
 
@@ -149,11 +165,15 @@ MANIFEST_TEXT.update({
                     "seeded search; the pure clauses are monitored on generated traffic.", "design_ref": "DESIGN.md 7/C05",
             "technique": _TECH, "note": "Index/array/range monitors use independent tables written in the engine."},
 })
+MANIFEST_TEXT["C11"] = {
+    "text": "Seeded search over arrival patterns; every window of the recorded write history is checked against the stated "
+            "allowances (O(n^2) windows per run), plus conservation and order.", "design_ref": "DESIGN.md 7/C11",
+    "technique": _TECH, "note": "Real constants; virtual time makes 20-minute drains cost < 1 s."}
 NOT_APPLICABLE = {
     "C03": "pure function of constructor arguments (decode(build(args)) = args): no schedule, clock, fault, history or second "
            "party to simulate; exhaustive/argument-space enumeration is outside this technique (DESIGN.md 8)",
     "C04": "pure scalar codec inverses over finite enumerable domains: no nondeterminism for a simulator to control "
            "(DESIGN.md 8)",
 }
-for _p in ("C10", "C11", "C12", "C13", "C14", "C15", "C16", "C17", "C18", "C19", "C20"):
+for _p in ("C10", "C12", "C13", "C14", "C15", "C16", "C17", "C18", "C19", "C20"):
     NOT_APPLICABLE.setdefault(_p, "applicable, but its engine is not built yet in this round (see DESIGN.md 12 build order)")
